@@ -180,6 +180,12 @@ def job_series(job):
             if abs(a - b) > tol * max(1.0, abs(b)):
                 return False
         return True
+    def req(A, B):
+        """reference dicts: exact when every coefficient is exact; generated code may contain Python float literals for
+        rational constants (1/2 printed as a division), so a float coefficient is compared with a relative tolerance"""
+        if any(isinstance(v, (float, complex)) for v in list(A.values()) + list(B.values())):
+            return all(abs(complex(A.get(k, 0)) - complex(B.get(k, 0))) <= 1e-9 * max(1.0, abs(complex(B.get(k, 0)))) for k in set(A) | set(B))
+        return O.eq(A, B)
     for cfg in job['configs']:
         try:
             alg = make_algebra(cfg)
@@ -208,11 +214,18 @@ def job_series(job):
                 warnings.simplefilter('ignore')
                 for name, sel in (('outerexp', terms), ('outersin', terms[1::2]), ('outercos', terms[0::2])):
                     r = _safe(lambda: getattr(x, name)())
-                    if r[0] != 'value' or not O.eq(O.nz(fr.mv_to_ref(r[1])), O.nz(ser(sel))):
+                    if r[0] != 'value' or not req(O.nz(fr.mv_to_ref(r[1])), O.nz(ser(sel))):
                         fail({'config': cfg, 'what': f'{name} is not the finite (odd/even) sum of x^(wedge k)/k!', 'x': showmv(ks, x.values()), 'got': str(r)[:200]})
-                rt = _safe(lambda: x.outertan())
-                ex = _safe(lambda: x.outersin() * x.outercos().inv())
-                if rt[0] != ex[0] or (rt[0] == 'value' and not O.eq(O.nz(fr.mv_to_ref(rt[1])), O.nz(fr.mv_to_ref(ex[1])))):
+                # inverses of dense 5-D / 6-D elements take tens of minutes to generate: the bound of this stand-in
+                # limits inverse-based identities to operands whose inverse argument has few blades
+                inv_limit = 10 ** 9 if d <= 4 else (4 if d == 5 else 2)
+                oc = _safe(lambda: x.outercos())
+                heavy = oc[0] == 'value' and len(oc[1].keys()) > inv_limit
+                if heavy:
+                    out['skipped_inverse_checks'] = out.get('skipped_inverse_checks', 0) + 1
+                rt = ('skipped', None) if heavy else _safe(lambda: x.outertan())
+                ex = ('skipped', None) if heavy else _safe(lambda: x.outersin() * x.outercos().inv())
+                if rt[0] != ex[0] or (rt[0] == 'value' and not req(O.nz(fr.mv_to_ref(rt[1])), O.nz(fr.mv_to_ref(ex[1])))):
                     fail({'config': cfg, 'what': 'outertan != outersin * inverse(outercos)', 'x': showmv(ks, x.values())})
             # ---- exp of a simple element (squares to a scalar): blade of every sign of square, numeric and symbolic
             K = rng.choice([k for k in range(1, 2 ** d)])
@@ -280,11 +293,14 @@ def job_series(job):
             out['evaluations'] += 1
             p3 = _safe(lambda: y ** 3)
             e3 = _safe(lambda: (y * y) * y)
-            if p3[0] != e3[0] or (p3[0] == 'value' and not O.eq(fr.mv_to_ref(p3[1]), fr.mv_to_ref(e3[1]))):
+            if p3[0] != e3[0] or (p3[0] == 'value' and not req(fr.mv_to_ref(p3[1]), fr.mv_to_ref(e3[1]))):
                 fail({'config': cfg, 'what': 'x**3 != x*x*x', 'x': showmv(ks, y.values())})
-            pm = _safe(lambda: y ** -2)
-            em = _safe(lambda: y.inv() * y.inv())
-            if pm[0] != em[0] or (pm[0] == 'value' and not O.eq(fr.mv_to_ref(pm[1]), fr.mv_to_ref(em[1]))):
+            heavy = len(ks) > inv_limit
+            if heavy:
+                out['skipped_inverse_checks'] = out.get('skipped_inverse_checks', 0) + 1
+            pm = ('skipped', None) if heavy else _safe(lambda: y ** -2)
+            em = ('skipped', None) if heavy else _safe(lambda: y.inv() * y.inv())
+            if pm[0] != em[0] or (pm[0] == 'value' and not req(fr.mv_to_ref(pm[1]), fr.mv_to_ref(em[1]))):
                 fail({'config': cfg, 'what': 'x**-2 != inverse(x)*inverse(x)', 'x': showmv(ks, y.values())})
             p0 = _safe(lambda: y ** 0)
             if p0[0] != 'value' or not O.eq(fr.mv_to_ref(p0[1]), {0: 1}):
